@@ -64,6 +64,20 @@ func helper() {
 	}
 }
 
+// function literals that are not inside any function declaration
+var pkgLevelLit = func() int {
+	type EBase interface{ ShadowInLit() }
+	type LitOnly interface{ Z() }
+	var _ EBase
+	var _ LitOnly
+	return 0
+}()
+
+var pkgLevelLit2 = []func(){func() {
+	type GBase interface{ AlsoShadow() }
+	var _ GBase
+}}
+
 // bystanders: forms whose status the property does not decide (never asserted)
 type AliasOfBase = EBase
 type DefinedFromBase EBase
